@@ -1,6 +1,6 @@
 (* C08 — expressions are evaluated exactly once; Debug runs only on failure. *)
 From ASModel Require Import Base Tokens Report Ast IR Expand SetMatch Values Nodes Sem Spec.
-From ASProofs Require Import PatInd StmtInd SemP TraceP Examples CorollariesP.
+From ASProofs Require Import PatInd StmtInd SemP TraceP MethodsP Examples CorollariesP.
 Local Open Scope string_scope.
 Local Open Scope list_scope.
 
@@ -76,3 +76,27 @@ Example c08_example_once :
              (VStructV "S" [("a", VInt 1); ("b", VInt 2)]) = Some 1 /\
   root_count (PSet 0 SCall false [PSimple 1 (ulit "2"); PSimple 2 (ulit "1")]) (VVecV [VInt 1; VInt 2]) = Some 1.
 Proof. split; vm_compute; reflexivity. Qed.
+
+(* ---- method calls written in field-operation chains (Proofs/MethodsP.v) ---- *)
+
+(* evaluating a value expression calls each method written in it exactly once *)
+Theorem c08_value_expression_calls_each_written_method_once : forall en e v t,
+  eval en e = Some (v, t) -> cnt MethodsP.is_method_ev t = MethodsP.vmethods e.
+Proof. exact MethodsP.eval_methods. Qed.
+Print Assumptions c08_value_expression_calls_each_written_method_once.
+
+(* on a passing run every statement of an expansion evaluates its own value expression exactly once: the methods called are those
+   the statements mention, statement by statement - nothing is evaluated a second time, read back through a temporary, or evaluated
+   for a message that is never shown.  (Sets aside: their predicates are probed once per candidate element.) *)
+Theorem c08_methods_called_once_per_statement_on_pass : forall s,
+  MethodsP.set_free s = true -> forall en tr, exec s en = Some ([], tr) -> cnt MethodsP.is_method_ev tr = MethodsP.sites s.
+Proof. exact MethodsP.exec_counts_methods. Qed.
+Print Assumptions c08_methods_called_once_per_statement_on_pass.
+
+(* non-vacuity: `S { h.bump(): 5, h.bump(): > 3, .. }` passes and calls the method twice, once per written chain *)
+Example c08_example_repeated_chain :
+  let bump := OChained SCall [ONamed "h" SCall SCall; OMethod "bump" SCall SCall []] in
+  let s := expand true (PStruct 0 (Some (pth "S")) true [(bump, PSimple 1 (ulit "5")); (bump, PCmp 2 OpGt SCall (ulit "3"))]) (VRoot []) in
+  MethodsP.set_free s = true /\ MethodsP.sites s = 2 /\
+  option_map (fun rt => (fst rt, cnt MethodsP.is_method_ev (snd rt))) (exec s (env0 (VStructV "S" [("h", VInt 5)]) [])) = Some ([], 2).
+Proof. vm_compute. repeat split. Qed.
